@@ -41,6 +41,7 @@ class CustomScalar:
     def parse_literal(self, ast):
         from tartiflette.constants import UNDEFINED_VALUE
         from tartiflette.language.ast import StringValueNode, IntValueNode, BooleanValueNode
+        if isinstance(ast, StringValueNode) and ast.value == "BADRAISE": raise ValueError("custom scalar: unreadable literal")   # (a scalar may refuse by raising)
         if isinstance(ast, StringValueNode): return UNDEFINED_VALUE if ast.value == "BAD" else ast.value
         if isinstance(ast, IntValueNode): return int(ast.value)
         if isinstance(ast, BooleanValueNode): return ast.value
